@@ -60,7 +60,9 @@ NoAlgo == [live |-> FALSE, cfg |-> NoCfg, t |-> 0, n |-> 0, pos |-> 0, done |-> 
 (* death    gill: step index after which no event is possible (a0 = 0);     *)
 (*          -1 = unknown (nondeterministic), -2 = never                     *)
 
-Q(a) == IF a.cfg.qs = <<>> THEN a.t \div a.cfg.interval ELSE a.cfg.qs[a.n + 1]
+(* beyond the table (a step the reference run never made) the quotient is unknown: -1 = no new multiple *)
+Q(a) == IF a.cfg.qs = <<>> THEN a.t \div a.cfg.interval
+        ELSE IF a.n + 1 <= Len(a.cfg.qs) THEN a.cfg.qs[a.n + 1] ELSE -1
 
 (* ---------------- native code, as functions on the record ------------- *)
 
@@ -201,7 +203,8 @@ RecSteps(a)     == {a.recN[i] : i \in RecIdx(a)}
 FirstAtOrAfter(a, tau) ==
   LET S == {k \in Steps(a) : T(a, k) >= tau} IN IF S = {} THEN {} ELSE {Min(S)}
 Allowed(a)  == UNION {FirstAtOrAfter(a, a.cfg.ts[q]) : q \in 1..Len(a.cfg.ts)}
-QAt(a, k)   == IF a.cfg.qs = <<>> THEN T(a, k) \div a.cfg.interval ELSE a.cfg.qs[k + 1]
+QAt(a, k)   == IF a.cfg.qs = <<>> THEN T(a, k) \div a.cfg.interval
+               ELSE IF k >= 0 /\ k + 1 <= Len(a.cfg.qs) THEN a.cfg.qs[k + 1] ELSE -1
 
 Shape(a)        == Len(a.recT) = Len(a.recN) /\ Len(a.recN) = Len(a.recBy)
 StepTimes(a)    == /\ Len(a.stepT) = a.n + 1 /\ a.stepT[1] = 0 /\ a.t = a.stepT[a.n + 1]
